@@ -1,0 +1,68 @@
+//go:build verif
+
+// Contracts for package cmd (comment-only file; no executable code).
+
+package cmd
+
+// removeQuotes strips exactly one pair of surrounding double quotes: what client.Start wrapped around the
+// parameters comes off again, whatever the parameters contain.
+//@ fn removeQuotes(s) (r)
+//@   props C11 C20
+//@   safety
+//@   ensures [C11 one_pair_of_quotes_is_removed] len(s) > 1 && s[0] == 34 && s[len(s) - 1] == 34 ==> r == substr(s, 1, len(s) - 2)
+//@   ensures [C11 unquoted_text_is_kept] !(len(s) > 1 && s[0] == 34 && s[len(s) - 1] == 34) ==> r == s
+//@ lemma quoting_round_trip(p string) props C11 C20:
+//@      substr("\"" + p + "\"", 1, len("\"" + p + "\"") - 2) == p
+
+// retry (C10, C11): the run being retried is looked up by the given request id in the history of this DAG file; the
+// DAG is loaded again with exactly the parameter text recorded for that run; the agent gets a newly generated request
+// id and the recorded status as its retry target.
+//@ fn newClient(cfg, ds, lg) (c)
+//@   props C10 C11
+//@   modifies heap(alloc)
+//@   nonnilresult
+//@ fn newDataStores(cfg) (ds)
+//@   props C10 C11
+//@   trusted
+//@   modifies heap(alloc), ghost fs.*, ghost eff.fs, ghost obs.stat*, ghost obs.mkdir*
+//@   nonnilresult
+// listenSignals only starts the goroutine that forwards SIGINT/SIGTERM (or the end of the context) to the agent.
+//@ fn listenSignals(ctx, listener)
+//@   props C05 C10 C11
+//@   trusted
+//@   noeffect
+//@ fn generateRequestID() (id, err)
+//@   props C10 C11
+//@   modifies heap(alloc)
+//@ fn retryCmd$1(cmd, args)
+//@   props C10 C11
+//@   modifies *
+//@   expect calls dag.Load >= 1
+//@   expect calls agent.New >= 1
+//@   expect calls (persistence.HistoryStore).FindByRequestID >= 1
+//@   assert before (persistence.HistoryStore).FindByRequestID [C10 retried_run_is_the_one_asked_for] arg1 == absoluteFilePath && arg2 == requestID
+//@   assert before dag.Load [C10,C11 retry_uses_the_recorded_parameters] arg1 == absoluteFilePath && arg2 == status.Status.Params
+//@   assert before agent.New [C10 retry_is_a_new_run_of_the_recorded_status] arg0 == newRequestID && arg1 == workflow && arg7 != nil && arg7.RetryTarget == status.Status
+
+// start (C11): the DAG is loaded with the text given to --params, with the one pair of quotes that client.Start put
+// around it removed and nothing else changed.
+//@ fn startCmd$1(cmd, args)
+//@   props C11
+//@   modifies *
+//@   expect calls dag.Load >= 1
+//@   expect calls removeQuotes >= 1
+//@   assert before dag.Load [C11 start_uses_the_given_parameters] arg1 == args[0] && arg2 == ite(len(params) > 1 && params[0] == 34 && params[len(params) - 1] == 34, substr(params, 1, len(params) - 2), params)
+
+// restart (C11): the parameters of the new run are the recorded parameter text of the latest run of this DAG.
+//@ ghost obs.prev_params string
+//@ fn getPreviousExecutionParams(e, workflow) (r, err)
+//@   props C11
+//@   requires e != nil
+//@   modifies heap(alloc), ghost obs.prev_params, ghost obs.latest, ghost obs.latest_err
+//@   records obs.prev_params = r
+//@   ensures [C11 previous_parameters_are_the_latest_run_s] err == nil ==> (obs.latest_err == nil && r == obs.latest.Params)
+//@ fn restartCmd$1(cmd, args)
+//@   props C11
+//@   modifies *
+//@   expect calls getPreviousExecutionParams >= 1
+//@   assert before dag.Load#1 [C11 restart_uses_the_previous_run_s_parameters] arg1 == specFilePath && arg2 == obs.prev_params
